@@ -27,10 +27,25 @@ def lemma_instance(ctx: Ctx, name: str, vals):
     """ground instance requires ==> ensures of a (separately proved) lemma"""
     from .kinds import coerce
 
+    if name not in api.LEMMAS:
+        # a (trusted) axiom instantiated at explicit arguments
+        ax = next((a for a in api.AXIOMS if a.name == name), None)
+        if ax is None:
+            raise ValueError(f"no lemma or axiom named {name}")
+        if len(vals) != len(ax.vars):
+            raise ValueError(f"axiom {name} takes {len(ax.vars)} arguments")
+        from .kinds import VOpt as _VOpt, truthy as _truthy
+
+        vs = {n: coerce(v.inner if (isinstance(v, _VOpt) and not k.startswith("opt[")) else v, k) for (n, k), v in zip(ax.vars.items(), vals)}
+        return _truthy(Pure(ctx, Env(vs, {})).ev(_parse_spec(ax.expr)))
     lem = api.LEMMAS[name]
     if len(vals) != len(lem.vars):
         raise ValueError(f"lemma {name} takes {len(lem.vars)} arguments")
-    vs = {n: coerce(v, k) for (n, k), v in zip(lem.vars.items(), vals)}
+    from .kinds import VOpt
+
+    # an Optional argument stands for its value (the instance is a valid instance of the proved
+    # lemma for whatever value that is, so this is sound also where the Optional is None)
+    vs = {n: coerce(v.inner if (isinstance(v, VOpt) and not k.startswith("opt[")) else v, k) for (n, k), v in zip(lem.vars.items(), vals)}
     env = Env(vs, {})
     hyp = [Pure(ctx, env).b(_parse_spec(r)) for r in lem.requires]
     con = [Pure(ctx, env).b(_parse_spec(e)) for e in lem.ensures]
